@@ -3,6 +3,7 @@ package main
 import (
 	"fmt"
 	"strings"
+	"unicode/utf8"
 
 	"google.golang.org/protobuf/encoding/protowire"
 	"google.golang.org/protobuf/proto"
@@ -256,6 +257,18 @@ func streamUnmarshal(r *hx.Rng, cfs []*cfile, bs *builtSet) {
 				}
 			case "C08":
 				sink.Count("resp:" + strings.SplitN(resp, " ", 2)[0])
+				// the reference semantics of the model (RefMsg.v + varints_fit) against dynamicpb on the same
+				// arbitrary bytes: what the both-accept theorem quantifies over is what protobuf-go does
+				// (one direction: RefWire.v is deliberately more liberal than protowire -- field number 0, numbers
+				// above 2^29-1, varints above 64 bits -- so only inputs protobuf-go ACCEPTS are compared: there the
+				// model must accept too, satisfy varints_fit, and read the same message)
+				if bv == bs.variants[0] && refPartial != "err" {
+					if why := outsideRefModel(u.md, u.input); why != "" {
+						sink.Count("ref-arbitrary-outside:" + why)
+					} else {
+						sink.Add("refarbitrary", fmt.Sprintf("G RA %s %d %s", u.c.Term, idx, hx.B(u.input)), refPartial, len(u.input) > 0)
+					}
+				}
 				if strings.HasPrefix(resp, "ok ") && strings.HasPrefix(refStrict, "ok ") && resp != refStrict {
 					fail("generated Unmarshal and the reference both accept the input but decode different messages", cs, refStrict, resp, classify("um-silent-differs", u.md, u.input))
 				}
@@ -489,4 +502,41 @@ func nestedUninit(md protoreflect.MessageDescriptor, b []byte) bool {
 		b = b[n+k:]
 	}
 	return false
+}
+
+// outsideRefModel: features of a byte string on which protobuf-go and the reference semantics of the model
+// are known to differ by design, so that the two are not compared: group wire types (protowire skips groups
+// as unknown fields, RefWire.v has no groups) and invalid UTF-8 in a proto3 string (protobuf-go validates,
+// the model's strings are byte strings).
+func outsideRefModel(md protoreflect.MessageDescriptor, b []byte) string {
+	for len(b) > 0 {
+		num, typ, n := protowire.ConsumeTag(b)
+		if n < 0 {
+			return ""
+		}
+		if typ == protowire.StartGroupType || typ == protowire.EndGroupType {
+			return "group"
+		}
+		k := protowire.ConsumeFieldValue(num, typ, b[n:])
+		if k < 0 {
+			return ""
+		}
+		if fd := fieldByNumber(md, num); fd != nil && typ == protowire.BytesType {
+			val, _ := protowire.ConsumeBytes(b[n:])
+			switch {
+			case fd.IsMap():
+				if why := outsideRefModel(fd.Message(), val); why != "" {
+					return why
+				}
+			case fd.Kind() == protoreflect.MessageKind:
+				if why := outsideRefModel(fd.Message(), val); why != "" {
+					return why
+				}
+			case fd.Kind() == protoreflect.StringKind && fd.Syntax() == protoreflect.Proto3 && !utf8.Valid(val):
+				return "utf8"
+			}
+		}
+		b = b[n+k:]
+	}
+	return ""
 }
